@@ -83,6 +83,11 @@ def main(tier):
         msg = judge(h, v["recs"])
         if msg:
             ck.violation(key, msg, {"script": txt})
+    # the computational routines called directly: what p?gstrf_init hands to the caller (three option arrays + the view AC) is exactly
+    # what Destroy_CompCol_Permuted / pxgstrf_finalize give back; p?gstrf (first time: L, U only; re-factorization: nothing), ?gstrs and
+    # ?gscon retain nothing (SluApi!ObsSInit / ObsSFactor / ObsSSolve / ObsSCon / ObsSDrop / ObsSFinal / ObsDestroy with SesBlocks)
+    apicheck.run_sessions(ck, 7 if quick else 8, 32 if quick else 400, rng, precs=("d", "s", "z", "c"), threads=(1, 2, 4), nmax=20,
+                          hist_filter=lambda h: h[-1]["call"] in ("destroy", "sfinal", "sdropac"), validate_pipe=False)
     return ck.finish()
 
 
